@@ -24,7 +24,8 @@ CONSTANTS R,          \* number of regions
           MaxOps,     \* depth bound
           Classes1,   \* down-res: Classes1[c] = the 8 regions (0 = unwritten) under a level-1 voxel of class c
           Classes2,   \* Classes2[c] = the 8 level-1 classes (0 = unwritten) under a level-2 voxel of class c
-          WithOverwrite \* include mutating voxel writes in Next
+          WithOverwrite, \* include mutating voxel writes in Next
+          WithSplit      \* include body splits (server option allowLabelmapSplit) and re-ingest of indices/mappings
 
 VARIABLES sv, mp, nxt, depth, last
 
@@ -41,6 +42,8 @@ RegionsOf(b) == {r \in Regions : sv[r] # 0 /\ mp[sv[r]] = b}
 
 RECURSIVE SumOver(_, _)
 SumOver(S, f) == IF S = {} THEN 0 ELSE LET x == CHOOSE y \in S : TRUE IN f[x] + SumOver(S \ {x}, f)
+RECURSIVE SetToSeqAsc(_)
+SetToSeqAsc(S) == IF S = {} THEN <<>> ELSE LET x == CHOOSE y \in S : \A z \in S : y <= z IN <<x>> \o SetToSeqAsc(S \ {x})
 RegionSize(r) == SumOver(Blocks, NVox[r])
 SVCountInBlock(s, b) == SumOver(RegionsOfSV(s), [r \in Regions |-> NVox[r][b]])
 SVSize(s) == SumOver(RegionsOfSV(s), [r \in Regions |-> RegionSize(r)])
@@ -85,6 +88,39 @@ SplitSV(s, S) ==
                  IF x \in {nxt + 1, nxt + 2} THEN mp[s] ELSE mp[x]]
     /\ nxt' = nxt + 2
     /\ last' = [op |-> "splitsv", sv |-> s, regions |-> S, split |-> nxt + 1, remain |-> nxt + 2]
+
+(***************************************************************************)
+(* POST split/<B> (sparse volume of the regions in S) -> new body nxt+1.   *)
+(* Every supervoxel touched by S is split into a "split" supervoxel (its   *)
+(* voxels inside S, mapped to the new body) and a "remain" supervoxel (its *)
+(* voxels outside S, staying in B); both get new ids, the old id vanishes. *)
+(* The server allocates those ids in an order the model does not fix; the  *)
+(* model numbers them by ascending old id and the harness binds them from  *)
+(* the stored voxels.                                                      *)
+(***************************************************************************)
+AffectedSeq(S) == SetToSeqAsc({sv[r] : r \in S})
+RankOf(q, x) == CHOOSE i \in 1..Len(q) : q[i] = x
+SplitIdOf(S, s) == nxt + 2 * RankOf(AffectedSeq(S), s)
+RemainIdOf(S, s) == nxt + 2 * RankOf(AffectedSeq(S), s) + 1
+Split(B, S) ==
+    /\ B \in Bodies /\ S # {} /\ S \subseteq RegionsOf(B) /\ S # RegionsOf(B)
+    /\ LET aff == {sv[r] : r \in S} IN
+       /\ sv' = [r \in Regions |-> IF r \in S THEN SplitIdOf(S, sv[r])
+                                    ELSE IF sv[r] \in aff THEN RemainIdOf(S, sv[r]) ELSE sv[r]]
+       /\ mp' = [x \in ({sv'[r] : r \in Regions} \ {0}) |->
+                   IF x \in DOMAIN mp THEN mp[x]
+                   ELSE IF \E s \in aff : x = SplitIdOf(S, s) THEN nxt + 1 ELSE B]
+       /\ nxt' = nxt + 1 + 2 * Cardinality(aff)
+    /\ last' = [op |-> "split", body |-> B, regions |-> S, new |-> nxt + 1]
+
+(***************************************************************************)
+(* Re-ingest of consistent data: POST index/<b> with the body's current     *)
+(* index, POST mappings with the current mapping.  Nothing may change.      *)
+(***************************************************************************)
+Reingest(kind, b) ==
+    /\ b \in Bodies
+    /\ UNCHANGED <<sv, mp, nxt>>
+    /\ last' = [op |-> kind, body |-> b]
 
 (***************************************************************************)
 (* POST renumber [new, old]: the body `old` becomes body `new`             *)
@@ -133,6 +169,8 @@ Next ==
        \/ \E B \in Bodies : \E C \in NonEmptyProperSubsets(SVsOf(B)) : Cleave(B, C)
        \/ \E s \in SVs : \E S \in NonEmptyProperSubsets(RegionsOfSV(s)) : SplitSV(s, S)
        \/ \E old \in Bodies : Renumber(old, nxt + 5)
+       \/ WithSplit /\ \E B \in Bodies : \E S \in NonEmptyProperSubsets(RegionsOf(B)) : Split(B, S)
+       \/ WithSplit /\ \E b \in Bodies : \E k \in {"reindex", "remap"} : Reingest(k, b)
        \* a region is overwritten with a fresh label, with a supervoxel already present, or erased
        \/ WithOverwrite /\ \E r \in Regions : \E x \in {0, nxt + 7} \cup SVs : Overwrite({r}, x)
 
